@@ -59,7 +59,7 @@ def run(sid, prop, tier="quick"):
     return rc, out
 
 
-def run_copy(sid, prop, tier="quick"):
+def run_copy(sid, prop, tier="quick", only=None):
     """like `run` but on a scratch worktree of /repo (so /repo itself stays untouched and several
     seeds can be tried at the same time); uses VERIF_REPO + its own VERIF_WORK"""
     d = os.path.join("/verif/seeded", sid)
@@ -72,7 +72,7 @@ def run_copy(sid, prop, tier="quick"):
         assert rc == 0, out
         env = dict(ENV, VERIF_REPO=wt, VERIF_WORK="/tmp/seedwork." + sid)
         t0 = time.time()
-        p = subprocess.run(["python3-vt", "/verif/vcheck.py", prop, "--tier", tier], cwd="/verif", env=env,
+        p = subprocess.run(["python3-vt", "/verif/vcheck.py", prop, "--tier", tier] + (["--only", only] if only else []), cwd="/verif", env=env,
                            stdout=subprocess.PIPE, stderr=subprocess.STDOUT, text=True, timeout=4 * 3600)
         out, rc = p.stdout, p.returncode
     finally:
